@@ -96,6 +96,23 @@ def run(R):
             ln = b.origin(ops[a['fields'].index('len')])
             R.check(term_contains(ln, lambda x: is_call(x, name='get_u32')), 'C06.R1', 'readbody-len-from-prefix', site(b, bb, i), 'ReadBody.len = %s' % show(ln)[:80])
         R.floor('C06.R1', 'ReadBody sites', len(rbs), 1)
+        # "if and only if": the announced length against the limit is the only thing that refuses a message for its size — a second
+        # comparison with the limit (e.g. of the decompressed length) refuses messages whose announced length is within the limit
+        lim_field = strip_refs(lt['limit'])
+        same_limit = lambda x: strip_refs(x) == lim_field or (show(strip_refs(x)) == show(lim_field))
+        others = []
+        for bb2 in sorted(b.live_blocks()):
+            t2 = b.term(bb2)
+            if t2['k'] != 'switch' or bb2 == tb:
+                continue
+            o2 = mirlib.norm_cmp(b.origin(t2['on']))
+            while o2 and o2[0] == 'un' and o2[1] == 'Not':
+                o2 = mirlib.norm_cmp(o2[2])
+            if o2 and o2[0] == 'bin' and o2[1] in ('Gt', 'Ge', 'Lt', 'Le') and (same_limit(o2[2]) or same_limit(o2[3])):
+                others.append(bb2)
+        oor = [(bb2, t2) for bb2, t2 in b.calls(pat='Status::out_of_range')]
+        R.check(not others and len(oor) == 1, 'C06.R1', 'single-limit-test', site(b, others[0]) if others else site(b, tb),
+                'the limit is compared once, with the announced length: other comparisons with the limit %d, Status::out_of_range sites %d' % (len(others), len(oor)))
         R.floor('C06.R1', 'reserve sites', len(b.calls(name='reserve')), 1)
         # the test happens as soon as the prefix is read: get_u32 -> test with no body poll / yield in between (same function, straight line)
         gb, gt = b.call1(name='get_u32')
